@@ -69,7 +69,10 @@ def ob_complex_split():
     return held("%.1e" % worst)
 
 
-def representation_error(mesh, refine, order, segmentwise=False):
+FAR = np.array([[4.0e5], [5.5e6], [120.0]])
+
+
+def representation_error(mesh, refine, order, segmentwise=False, far=False):
     import bempp_cl.api as api
     from bempp_cl.api.operators.potential import laplace
 
@@ -79,6 +82,9 @@ def representation_error(mesh, refine, order, segmentwise=False):
     grid = SG.make_grid(v, e)
     for _ in range(refine):
         grid = grid.refine()
+    if far:
+        # "for every closed surface": the same surface in map-style coordinates, far from the origin compared with its size
+        grid = SG.make_grid(grid.vertices + FAR, grid.elements)
     if segmentwise:
         di = np.array([1 + (c[2] > np.median(grid.centroids[:, 2])) for c in grid.centroids], dtype="uint32")
         grid = SG.make_grid(grid.vertices, grid.elements, di)
@@ -97,6 +103,8 @@ def representation_error(mesh, refine, order, segmentwise=False):
     worst = 0.0
     for a, b in (((1.0, 0, 0), 0.3), ((0.2, -0.7, 0.5), -1.0)):
         a = np.array(a)
+        if far:
+            b = b - float(a @ FAR[:, 0])      # the same affine function in local coordinates: u = a.(x - c) + b stays O(1) on the surface
         total = np.zeros(pts.shape[1])
         pieces = [{"segments": [1]}, {"segments": [2]}] if segmentwise else [{}]
         for kw in pieces:
@@ -119,23 +127,23 @@ def representation_error(mesh, refine, order, segmentwise=False):
     return worst, inside.shape[1], h
 
 
-def ob_representation(mesh, refine, segmentwise=False):
+def ob_representation(mesh, refine, segmentwise=False, far=False):
     """bounded: SLP[a.n](x) - DLP[u](x) == u(x) inside / 0 outside, relative error <= 1e-6 at regular order >= 8 (10), decreasing from 4."""
     errs = {}
     for o in (4, 8, 10):
-        errs[o], nin, h = representation_error(mesh, refine, o, segmentwise)
+        errs[o], nin, h = representation_error(mesh, refine, o, segmentwise, far)
     ok = errs[10] <= 1e-6 and errs[8] <= 1e-5 and errs[8] < errs[4]
     txt = "h=%.2f, %d interior pts; errors o4 %.1e o8 %.1e o10 %.1e" % (h, nin, errs[4], errs[8], errs[10])
     if not ok:
         return violated("representation formula on %s (refined %d%s): %s" % (mesh, refine, ", segment-wise pieces" if segmentwise else "", txt),
                         witness={"mesh": mesh, "refine": refine, "segmentwise": segmentwise},
-                        replay={"callable": "checks.c02:replay_representation", "kwargs": {"mesh": mesh, "refine": refine, "segmentwise": segmentwise}, "confirmed": True},
+                        replay={"callable": "checks.c02:replay_representation", "kwargs": {"mesh": mesh, "refine": refine, "segmentwise": segmentwise, "far": far}, "confirmed": True},
                         signature="representation/%s/%d/%s" % (mesh, refine, segmentwise))
     return held(txt)
 
 
-def replay_representation(mesh, refine, segmentwise=False):
-    r = ob_representation(mesh, refine, segmentwise)
+def replay_representation(mesh, refine, segmentwise=False, far=False):
+    r = ob_representation(mesh, refine, segmentwise, far)
     return {"violates": r["status"] == "violated", "detail": r["detail"]}
 
 
@@ -170,6 +178,7 @@ def main():
         run.add("operators.potential.laplace.%s::descriptor" % name, "post", ob_factory, name)
     run.add("PotentialAssembler.evaluate::complex-split", "bounded", ob_complex_split)
     run.add("representation.octa(refined 2)", "bounded", ob_representation, "octa", 2)
+    run.add("representation.octa(refined 2, translated to (4e5, 5.5e6, 120))", "bounded", ob_representation, "octa", 2, False, True)
     if thorough:
         run.add("representation.cube12(refined 3)", "bounded", ob_representation, "cube12", 3)
         run.add("representation.octa(refined 2, segment-wise pieces)", "bounded", ob_representation, "octa", 2, True)
